@@ -370,8 +370,13 @@ def run(spec, tier, seed, replay=None):
 
 	# 3. T2 correspondence inside Coq
 	items = []
+	coq_case_errors = []
 	for i, (c, o) in enumerate(zip(cases, obs)):
-		t = spec.coq_case(c, o)
+		try:
+			t = spec.coq_case(c, o)
+		except Exception as exc:   # an observation the literal writer does not know: a broken tie for this case, not a crash of the check
+			coq_case_errors.append((i, '%s: %s' % (type(exc).__name__, str(exc)[:200])))
+			continue
 		if isinstance(t, list):
 			items.extend((i, tt) for tt in t)
 		elif t is not None:
@@ -385,15 +390,25 @@ def run(spec, tier, seed, replay=None):
 	# 4. property oracle on the implementation (always; it is the search for a replayable input)
 	nontrivial = set()
 	for i, (c, o) in enumerate(zip(cases, obs)):
-		key = spec.nontrivial(c, o)
+		try:
+			key = spec.nontrivial(c, o)
+		except Exception:
+			key = None
 		if key is not None:
 			nontrivial.add(key)
-		fail = spec.oracle(c, o)
+		# a crash of the harness's own oracle or classifier on an observation it did not expect must still surface as a reported failure
+		try:
+			fail = spec.oracle(c, o)
+		except Exception as exc:
+			fail = 'the property oracle itself raised %s: %s (observation of a shape the harness does not know)' % (type(exc).__name__, str(exc)[:200])
 		if fail is None:
 			if c.get('_witness') and c['_witness'] in known:
 				pass  # a known finding that no longer fails: simply not reported
 			continue
-		fid = spec.classify(c, o, fail)
+		try:
+			fid = spec.classify(c, o, fail)
+		except Exception:
+			fid = None
 		if fid is not None and fid in known:
 			known_hit.setdefault(fid, (c, fail))
 			continue
@@ -409,6 +424,9 @@ def run(spec, tier, seed, replay=None):
 		broken.append(b['failed'])
 	if corr_err:
 		broken.append('correspondence shard failed: ' + corr_err[0][:500])
+	if coq_case_errors:
+		i0, msg0 = coq_case_errors[0]
+		broken.append('the Coq literal of %d observation(s) could not be written (%s), first case: %s' % (len(coq_case_errors), msg0, jdump(cases[i0])[:400]))
 	if tie_broken:
 		broken.append('model and implementation disagree on %d case(s), first: %s' % (len(tie_broken), jdump(tie_broken[0])[:600]))
 
